@@ -280,6 +280,41 @@ theorem c13_sync_result_logged (s : State) (b : Bool) (hr : (step s .syncEnd).2 
           · cases kind <;> simp [endSync] at hr <;> (cases b <;> simp [cur, hr, hrv])
           · cases kind <;> simp [endSync] at hr <;> (cases b <;> simp [cur, hr])
 
+/-- **`while (gen)`** — `generator::operator bool` (`!done()`): it reads false exactly when the body has ended regularly, and then the
+complete sequence including the end marker has been handed over — so a consumer looping on it never stops early. After an
+exception it stays true (`_done` is only set by `return_void`); the next access then reports the end (`c13_end_once`). -/
+theorem c13_operator_bool {mode : Bool} {sc : List Act} {s : State} (h : Reachable mode sc s) (b : Bool)
+    (hr : (step s .active).2 = .active b) :
+    (b = false ↔ (s.bst = .final ∧ s.exp = false)) ∧
+    (b = false → s.obs ++ pend s = (yields sc).map Item.val ++ [ending sc]) := by
+  have hi := reachable_inv h
+  have hk := (reachable_konst h).1
+  have hb : b = !s.done := by
+    simp only [step, stepActive] at hr
+    by_cases h1 : s.alive = true <;> by_cases h2 : inSync s = true <;> by_cases h3 : inflight s = true <;>
+      simp [h1, h2, h3] at hr
+    cases b <;> cases hd : s.done <;> simp_all
+  have hdf : s.done = true ↔ (s.bst = .final ∧ s.exp = false) := by
+    constructor
+    · intro hd
+      have hf : s.bst = .final := by
+        cases hbs : s.bst <;> first | rfl | (have := (hi.flags_run (by simp [hbs])).1; simp [hd] at this)
+      have hff := hi.flags_fin hf
+      rw [hd] at hff
+      refine ⟨hf, ?_⟩
+      cases he : s.exp
+      · rfl
+      · rw [he] at hff; exact absurd hff (by decide)
+    · rintro ⟨hf, he⟩
+      have := hi.flags_fin hf
+      simpa [he] using this
+  constructor
+  · rw [hb]; cases hd : s.done <;> simp_all
+  · intro hbf
+    have hd : s.done = true := by rw [hb] at hbf; cases hd : s.done <;> simp_all
+    have := hi.seq_fin (hdf.mp hd).1
+    rw [this, hk]; rfl
+
 /-- **Locals destroyed exactly once.** At any time every guard constructed by the body is either still in scope or was
 destroyed exactly once — never twice, never lost; a finished body has none in scope. -/
 theorem c13_guards_once {mode : Bool} {sc : List Act} {s : State} (h : Reachable mode sc s) (g : Nat) :
@@ -397,6 +432,12 @@ example :
     (run (init false [.guard, .yield 1, .await 0, .yield 2, .throw])
       [.syncBegin 0, .syncEnd, .syncBegin 0, .syncEnd, .complete 0, .syncEnd, .anext 0, .call 0, .syncBegin 0]).seen
       = [.val 1, .val 2, .exc, .nomore, .nomore] := by decide
+
+/-- `while (gen)`: true at a value, false once the body has returned, still true after an exception -/
+example :
+    (step (run (init false [.yield 1]) [.syncBegin 0, .syncEnd]) .active).2 = .active true ∧
+    (step (run (init false [.yield 1]) [.syncBegin 0, .syncEnd, .syncBegin 0, .syncEnd]) .active).2 = .active false ∧
+    (step (run (init false [.throw]) [.syncBegin 0, .syncEnd]) .active).2 = .active true := by decide
 
 /-- the synchronous access is blocked while the body awaits operation 0 -/
 example :
